@@ -5,6 +5,7 @@ import Hv.VmdkDesc
 import Hv.VmdkDescEnc
 import Hv.Prim.Inflate
 import Hv.Concat
+import Hv.Footprint
 namespace Hv.Driver
 open Hv
 
@@ -68,6 +69,24 @@ def vmdkCmd (st : St) : List String → String
       | .ok (v, _) => runStreamSec v.read (some v.readSectors) v.size a (rest.drop k)
       | .error e => s!"err {e}"
     | _, _ => "bad-args"
+  | "vmdk.footprint" :: off :: len :: ids =>
+    -- C13: the file ranges `_read(off, len)` of a single uncompressed sparse extent may look at
+    -- (HvProofs/FootprintVmdk.lean: vmdk_read_footprint); `io=` every table entry widened to its grain table (what the
+    -- real code transfers), `fp=` the footprint of the theorem, `tot=` its total length, `bound=` io_bound_tables
+    match off.toNat?, len.toNat?, vmdkFiles st ids >>= vmdkOpenHandles with
+    | some o, some l, .ok (v, [sp]) =>
+      if v.disks.size ≠ 1 then "err unsupported"
+      else if sp.flags &&& Extracted.vmdk.SPARSEFLAG_COMPRESSED ≠ 0 then "err compressed"
+      else
+        let sector := o / 512
+        let count := min ((l + 511) / 512) (sp.capacity - sector)
+        let fp := Footprint.vmdk sp sector count
+        let io := Footprint.vmdkIO sp sector count
+        let pr := fun (rs : Footprint.Ranges) => ",".intercalate (rs.map fun r => s!"{r.1}:{r.2}")
+        s!"ok io={pr io};fp={pr fp};tot={Footprint.total fp};bound={count * 512 + 8 * (count / sp.grainSize + 2)}"
+    | some _, some _, .ok _ => "err unsupported"
+    | _, _, .error e => s!"err {e}"
+    | _, _, _ => "bad-args"
   | _ => "bad-cmd"
 
 end Hv.Driver
